@@ -20,6 +20,8 @@ func dispatch(cmd string, args []string) int {
 		return cmdPerms(args)
 	case "C18":
 		return cmdList(args)
+	case "C08":
+		return cmdSigs(args)
 	default:
 		fmt.Println("unknown command", cmd)
 		return 2
